@@ -22,6 +22,8 @@ fn decision_literals() -> gen::VS {
             json!({"or": [0, ""], "label": "x"}), json!({"and": [1, 0], "else": [2]}), json!({"if": [true, 1, 2], "z": 1}), json!({"or": [{"+": ["x"]}], "k": 1}), json!({"and": [{"log": "IN-LITERAL"}], "or": [1]}),
             json!({"?:": [1, 2, 3], "if": [0]}), json!({"or": [], "and": []}),
         ]),
+        // array literals holding constant operations: written in the rule, yet values - never evaluated or folded
+        select(vec![json!([{"+": [1, 2]}]), json!([[{"==": [1, 1]}]]), json!([0, {"cat": ["a", "b"]}]), json!([{"!": [true]}, {"merge": [[1], [2]]}]), json!([{"log": "IN-ARRAY"}]), json!([{"+": ["x"]}])]),
         Just(gen::f(-0.0)),
         Just(gen::f(1e-320)),
     ]
@@ -160,7 +162,7 @@ fn check_mixed(case: &Value, obs: &mut Obs) -> Result<(), String> {
 }
 
 fn gen_mixed() -> BoxedStrategy<Value> {
-    let cfg = rules::Cfg::new(&["if", "?:", "and", "or", "if", "and", "or", "==", "+", "cat", "var", "!", "map", "log", "<"]).poison(3).bad_arity(30);
+    let cfg = rules::Cfg::new(&["if", "?:", "and", "or", "if", "and", "or", "==", "+", "cat", "var", "!", "map", "filter", "log", "<", "missing", "missing_some"]).poison(3).bad_arity(30);
     let inner = rules::expr(cfg.clone());
     let root = prop_oneof![
         vec(inner.clone(), 0..=7).prop_map(|v| json!({"if": v})),
